@@ -872,6 +872,20 @@ Definition embeddable (d : dtype) : bool :=
   | _ => false
   end.
 
+(* a struct member: an embedded one is IDENT or '*' IDENT -- behind the star parseElemExpr takes
+   ANY identifier, also a Go keyword ("*type"); a named one has a well-formed type *)
+Definition wf_member (names : list string) (d : dtype) (wfd : bool) : bool :=
+  match names with
+  | [] => match d with
+          | DBase s => wf_base s
+          | DAny => true
+          | DPtr (DBase s) => negb (String.eqb s "any")
+          | DPtr DAny => true
+          | _ => false
+          end
+  | _ => wfd
+  end.
+
 Fixpoint wf_dt (d : dtype) : bool :=
   match d with
   | DBase s => wf_base s
@@ -879,8 +893,7 @@ Fixpoint wf_dt (d : dtype) : bool :=
   | DStruct es =>
     forallb (fun e : elem =>
                let '(names, d', _) := e in
-               forallb wf_name names && wf_dt d' &&
-               match names with [] => embeddable d' | _ => true end) es
+               forallb wf_name names && wf_member names d' (wf_dt d')) es
   | DArray _ d' | DSlice d' => wf_dt d'
   | DMap k v => wf_dt k && wf_dt v
   | DPtr d' => not_struct d' && wf_dt d'
@@ -889,8 +902,9 @@ Fixpoint wf_dt (d : dtype) : bool :=
 Definition wf_texpr (e : texpr) : bool := let '(n, _, d) := e in wf_name n && wf_dt d.
 
 Definition not_returns (s : string) : bool := negb (String.eqb s "returns").
+(* "/returns" ends the path ("returns" is tested by its text); "/:returns" is a segment *)
 Definition wf_pseg (s : pseg) : bool :=
-  not_returns (match ps_head s with PId x | PInt x => x end) &&
+  (ps_colon s || not_returns (match ps_head s with PId x | PInt x => x end)) &&
   forallb (fun e : psep * string => match fst e with SepSub => true | SepNone => false end) (ps_tail s).
 Definition wf_path (p : path) : bool :=
   forallb wf_pseg (p_segs p) && match p_segs p with [] => p_trail p | _ => true end.
